@@ -120,10 +120,10 @@ def gen_fc(rng, lo, hi, idx, seqname):
     return fc
 
 
-def gen_collection(rng, cidx, parse_leg, mode):
-    L = rng.choice([60, 150, 300])
-    seqname = ["chrA", "chrB", "contig-3"][cidx]
-    seq = specs.gen_seq(rng, L, with_n=rng.random() < 0.1)
+def gen_collection(rng, cidx, parse_leg, mode, names=("chrA", "chrB", "contig-3")):
+    L = rng.choice([60, 120, 150, 299, 300])
+    seqname = names[cidx]
+    seq = specs.gen_seq(rng, L, with_n=rng.random() < 0.1, lower=rng.random() < 0.1)
     genes, fcs = [], []
     for g in range(rng.randint(1, 3)):
         lo = rng.randint(0, max(0, L - 14))
@@ -171,16 +171,35 @@ def gen_case(seed, idx, tier="quick"):
     cfg = TIERS[tier]
     parse_leg = rng.random() < 0.65
     mode = rng.choice(["chrom", "chrom", "chrom_noseq", "none", "chunk"])
-    ncoll = rng.choice([1, 1, 2])
-    colls = [gen_collection(rng, c, parse_leg, mode) for c in range(ncoll)]
+    ncoll = rng.choice([1, 1, 2, 3])
+    names = rng.choice([("chrA", "chrB", "contig-3"), ("chrB", "chrA", "contig-3"), ("contig-3", "chrB", "chrA"), ("seq10", "seq9", "Seq1")])
+    colls = [gen_collection(rng, c, parse_leg, mode, names) for c in range(ncoll)]
     if parse_leg and rng.random() < 0.45:
         colls = [make_lossless(c, rng) for c in colls]
     args = {
         "add_sequences": mode == "chrom" and rng.random() < 0.5,
-        "ordered": True,
+        # ordered=False (collections in input order) only on the writer leg: after a parse the input order is whatever
+        # order the GFF3 database returns the sequences in, so byte identity of a re-export is only meaningful when ordered
+        "ordered": True if parse_leg else rng.random() < 0.6,
         "chromosome_relative_coordinates": mode != "chunk",
         "raise_on_reserved_attributes": True,
     }
+    if not parse_leg and rng.random() < 0.2:
+        # GFF3-reserved keys used as free qualifiers: ID / Name / Parent must be dropped (with a warning) when the caller
+        # asks not to raise; the other reserved keys keep their case
+        args["raise_on_reserved_attributes"] = False
+        for c in colls:
+            for g in c["genes"]:
+                tgt = rng.choice([g] + g["transcripts"])
+                q = tgt.get("qualifiers") or {}
+                q[rng.choice(["ID", "Name", "Parent", "Note", "Dbxref"])] = ["reserved value"]
+                tgt["qualifiers"] = q
+    if not parse_leg and rng.random() < 0.15:
+        for c in colls:
+            for g in c["genes"]:
+                q = g.get("qualifiers") or {}
+                q.setdefault("function", []).append("")  # empty value: exported as 'nan'
+                g["qualifiers"] = q
     seeds = cfg["node_seeds"]
     a = rng.choice(seeds)
     b = rng.choice([s for s in seeds if s != a] or seeds)
@@ -429,7 +448,8 @@ def _merge(*dicts):
 
 
 def _q(quals):
-    return {_k(k): _vals(v) for k, v in (quals or {}).items()}
+    # ID / Name / Parent used as free qualifiers are never emitted (dropped with a warning, or the export raises)
+    return {_k(k): _vals(v) for k, v in (quals or {}).items() if k not in ("ID", "Name", "Parent") and v}
 
 
 def _add(d, key, val):
@@ -558,6 +578,13 @@ def check_wellformed(text, case):
             seq_order.append(r["seqid"])
     if len(set(seq_order)) != len(seq_order):
         bad("sequences_interleaved", seq_order)
+    want_order = [sp["sequence_name"] for sp in case["specs"]]
+    if args["ordered"]:
+        want_order = sorted(want_order)
+    if seq_order != [n for n in want_order if n in seq_order]:
+        bad("sequence_order", f"{seq_order} != {want_order} ordered={args['ordered']}")
+    if args["add_sequences"] and list(fasta) != want_order:
+        bad("fasta_order", f"{list(fasta)} != {want_order}")
     # tree per sequence
     by_parent = collections.defaultdict(list)
     tops = collections.defaultdict(list)
